@@ -136,6 +136,9 @@ def run(ctx):
     ok = all((u[0] == "term" and call_matches(u[2], r"IntoIterator>::into_iter$|into_iter$")) or (u[0] == "stmt" and u[4] == "move") or (u[0] == "term" and u[4] == "drop") for u in uses)
     ctx.ob("C19.2", "%s|param-only-iterated" % rnew.id, "the supplied header vector is only iterated", ok, "%s:%d" % (rnew.file, rnew.line), str([(u[0], u[-1]) for u in uses]))
 
+    # conversions (boxed / with_data / clone ...) carry every other field over unchanged and do not go back through the constructor
+    conv_fields(ctx, facts, "C19.2")
+
     # ---- C19.3 automatic Date / Server
     g = raw_print
     ctx.touch(g)
@@ -255,3 +258,35 @@ def run(ctx):
         resid = set(wmh.call_blocks(lambda t2: t2.get("callee") == "std::ops::FromResidual::from_residual"))
         ctx.ob("C19.5", "%s|no-skip" % wmh.id, "no header is skipped", nexts[0] not in reach, wmh.loc(some_t))
     return {}
+
+
+def conv_fields(ctx, facts, rule):
+    """Every method that turns one Response into another (takes `self`/`&self` of type Response and builds a Response)
+    copies status_code, headers, data_length and chunked_threshold from `self` (except the fields it is documented to
+    replace), and does not rebuild through Response::new (which resets the header list and the chunking threshold)."""
+    rnew = roles.inherent(facts, RESP, "new")
+    replaced = {"with_data": {"reader", "data_length"}, "boxed": {"reader"}, "clone": {"reader"}}
+    n = 0
+    for k, g in sorted(facts.local_fns.items()):
+        if g.rec.get("impl_self_adt") != RESP or g.argc < 1 or not re.search(r"response::Response<", g.local_ty(1)) or not re.search(r"response::Response<", g.local_ty(0)):
+            continue
+        if g.id == rnew.id:
+            continue
+        name = g.rec["name"]
+        cons = [(bb, s2) for h, bb, s2 in facts.constructions(RESP) if h.id == g.id]
+        via_new = g.call_blocks(lambda t: call_is(t, rnew.id) or call_matches(t, r"response::Response::<R>::new$"))
+        if not cons and not via_new:
+            continue        # builder-style methods returning `self` itself
+        n += 1
+        ctx.touch(g)
+        ctx.ob(rule, "%s|not-through-constructor" % g.id, "%s() does not rebuild the response through Response::new (that would drop the chunking threshold and re-filter the headers)" % name,
+               not via_new, "%s:%d" % (g.file, g.line))
+        for bb, s2 in cons:
+            r = s2["rhs"]
+            for fld, o_ in zip(r["fields"], r["ops"]):
+                if fld in replaced.get(name, set()):
+                    continue
+                o = g.origin(o_)
+                ok = fld in origin_fields(o) and any(x == ("arg", 1) for x in origin_walk(o))
+                ctx.ob(rule, "%s|keeps-%s" % (g.id, fld), "%s() carries `%s` over from the original response" % (name, fld), ok, g.loc(bb), origin_str(o))
+    ctx.floor("%s conversion methods" % rule, n, 2)
